@@ -184,6 +184,13 @@ pub fn v_edge(full: bool) -> Vec<Named> {
     bt.insert("a".to_string(), Value::from(1));
     v.push(n("btree{a:1}", "map", Value::from(bt)));
     v.push(n("{a:[1]}", "map", map_of(&[(s("a"), l(vec![1.into()]))])));
+    // values that a missing key could be mistaken for
+    v.push(n("{a:undefined}", "map", map_of(&[(s("a"), Value::UNDEFINED)])));
+    v.push(n("{b:undefined}", "map", map_of(&[(s("b"), Value::UNDEFINED)])));
+    v.push(n("{a:none}", "map", map_of(&[(s("a"), Value::from(()))])));
+    v.push(n("{b:none}", "map", map_of(&[(s("b"), Value::from(()))])));
+    v.push(n("{a:1,b:undefined}", "map", map_of(&[(s("a"), 1.into()), (s("b"), Value::UNDEFINED)])));
+    v.push(n("{a:1,c:2}", "map", map_of(&[(s("a"), 1.into()), (s("c"), 2.into())])));
     // plain objects
     v.push(n("plain(1)", "plain", Value::from_object(Plain(1))));
     v.push(n("plain(1)'", "plain", Value::from_object(Plain(1))));
